@@ -12,7 +12,8 @@ Excl(S) == Cardinality(S \cap {"capture_always", "capture_never", "capture_defau
 Plans == {<<sh, S>> : sh \in Shapes, S \in {T \in SUBSET Features : Cardinality(T) <= MaxFeatures /\ Excl(T)}}
 \* container attribute items (C20 derive half)
 Items == { [k |-> "bounds", ps |-> {"T"}], [k |-> "bounds", ps |-> {}], [k |-> "skip_type_params", ps |-> {"T"}],
-           [k |-> "capture_docs", valid |-> TRUE], [k |-> "capture_docs", valid |-> FALSE], [k |-> "crate"],
+           [k |-> "capture_docs", valid |-> TRUE, val |-> "default"], [k |-> "capture_docs", valid |-> TRUE, val |-> "Always"],
+           [k |-> "capture_docs", valid |-> TRUE, val |-> "never"], [k |-> "capture_docs", valid |-> FALSE, val |-> "sometimes"], [k |-> "crate"],
            [k |-> "replace_segment"], [k |-> "unknown"] }
 ItemSeqs == UNION {[1..n -> Items] : n \in 0..3}
 VARIABLE x
